@@ -143,11 +143,18 @@ class HTTPFile(io.IOBase):
 
     def read(self, size=-1, /):
         """Cache-supported read operation (file object)"""
-        data = self.read_range_cached(self._pos, self._pos + size)
-        if size > 0:
-            self._pos += size
+        length = self.length
+        if size is None or size < 0:
+            # read until the end of the resource
+            stop = length
         else:
-            self._pos = self.length
+            # never request data beyond the end of the resource
+            stop = min(self._pos + size, length)
+        if stop <= self._pos:
+            # nothing to read (`size` is zero or we are at the end)
+            return b""
+        data = self.read_range_cached(self._pos, stop)
+        self._pos += len(data)
         return data
 
     def read_range_cached(self, start, stop):
